@@ -16,16 +16,17 @@ Op1(name, a) == [op |-> name, b |-> 1, n |-> a, dt |-> 1000]
 Op0(name) == [op |-> name, b |-> 1, dt |-> 1000]
 Ops == { Op1(nm, a) : nm \in {"inc", "dec", "set_position", "update_pos", "inc_length", "dec_length"}, a \in Args }
        \cup { Op1("set_length", a) : a \in LenArgs }
-       \cup { Op0(nm) : nm \in {"unset_length", "reset", "finish", "abandon", "finish_and_clear", "tick"} }
+       \cup { Op0(nm) : nm \in {"unset_length", "reset", "finish", "abandon", "finish_and_clear", "tick", "finish_using_style"} }
 
-News == { [op |-> "new", b |-> 1, nolen |-> FALSE, len |-> l, tpl |-> "CP", fin |-> "AndLeave", fm |-> <<>>, m0 |-> <<>>, p0 |-> <<>>, pos0 |-> 0, tabw |-> 8,
-           target |-> Target, hz |-> 0, dt |-> 0] : l \in LenArgs } \cup
+Fins == {"AndLeave", "Abandon"}
+News == { [op |-> "new", b |-> 1, nolen |-> FALSE, len |-> l, tpl |-> "CP", fin |-> f, fm |-> <<>>, m0 |-> <<>>, p0 |-> <<>>, pos0 |-> 0, tabw |-> 8,
+           target |-> Target, hz |-> 0, dt |-> 0] : l \in LenArgs, f \in Fins } \cup
         { [op |-> "new", b |-> 1, nolen |-> TRUE, len |-> -1, tpl |-> "CP", fin |-> "AndLeave", fm |-> <<>>, m0 |-> <<>>, p0 |-> <<>>, pos0 |-> 0, tabw |-> 8, target |-> Target, hz |-> 0, dt |-> 0] }
 
 Init == L = LInit(FALSE, Zero) /\ hist = <<>> /\ done = FALSE
 Step == /\ Len(hist) < D
         /\ IF hist = <<>>
-           THEN \E o \in News : L' = LInit(~o.nolen, IF o.nolen THEN Zero ELSE o.len) /\ hist' = <<o>>
+           THEN \E o \in News : L' = LInitF(~o.nolen, IF o.nolen THEN Zero ELSE o.len, o.fin) /\ hist' = <<o>>
            ELSE \E o \in Ops : L' = LApply(L, o) /\ hist' = Append(hist, o)
         /\ UNCHANGED done
 Emit == /\ Len(hist) = D /\ ~done
